@@ -193,6 +193,12 @@ def gen_second_time(rng):
         case["preaggs"][0]["dimensions"].append("g1")
     rng.shuffle(case["dims"])
     case["filters"] = []
+    # what the second time dimension DECLARES as its own granularity (what a bare reference is truncated to) varies with the case; a query may be finer than it, or ask
+    # for a month of a dimension declared at week
+    import zlib
+    case["t2_gran"] = ["hour", "day", "week", "month"][zlib.crc32(repr((case["dims"], case["mets"], len(case["rows"]))).encode()) % 4]
+    if case["t2_gran"] in ("week", "month") and zlib.crc32(repr(case["mets"]).encode()) % 2:
+        case["filters"] = ["ev.t2 >= '2024-02-07 13:00:00'"]          # a literal inside a bucket of the declared granularity
     return case
 
 
@@ -247,7 +253,7 @@ def build(case):
     pas = [PreAggregation(**p) for p in case["preaggs"]]
     m = Model(name="ev", table="ev", primary_key="id",
               dimensions=[Dimension(name="ts", type="time", sql="ts", granularity="hour"), Dimension(name="g1", type="categorical"), Dimension(name="g2", type="categorical"),
-                          Dimension(name="t2", type="time", sql="ts + INTERVAL 11 DAY", granularity="hour")],      # a second time dimension (shipped next to created)
+                          Dimension(name="t2", type="time", sql="ts + INTERVAL 11 DAY", granularity=case.get("t2_gran", "hour"))],      # a second time dimension (shipped next to created)
               metrics=[Metric(name=n, agg=a, sql=e, filters=f) for n, (a, e, f) in MEAS.items()], pre_aggregations=pas)
     L.add_model(m)
     mat_err = {}
@@ -318,6 +324,8 @@ def route_facts(case, used):
         reason = reason or "K5"
     if raw_time:
         reason = reason or "K6"
+    if case.get("t2_gran", "hour") != "hour" and any("ev.t2" in f for f in case["filters"]):
+        reason = reason or "K9"          # a filter on a second time dimension that DECLARES a coarser granularity than its column has
     term = "facts [%s] %s %s %s %s" % ("; ".join('("%s", %s)' % (a, "true" if fl else "false") for a, fl in aggs), "true" if dims_ok else "false",
                                        "true" if filt_ok else "false", "true" if raw_time else "false", tcoq)
     return term, reason, pa
